@@ -10,6 +10,11 @@ sys.path.insert(0, HERE)
 CHECKS = {}   # filled by vf/props modules that exist: id -> (category, text, note, technique, design_ref)
 
 TABLE = {
+    "C19": ("exploration",
+            "The real CLI is run under monitors on what kernel_dg sees (clock polls, sleeps, os.kill, worker start/join, path generators, the created KernelDG, the process table afterwards) on recurrence kernels with exponentially many paths below and above the multi-process threshold, on kernel_x86_long_LCD.s and on ordinary kernels, for timeouts 0/1/2/120/-1: warning iff cut short, kills imply warning, every reported cycle verified against the doubled graph and against the untimed result where feasible, throughput/CP equal to the untimed analysis, no child left, and bounded progress (still enumerating at 3*timeout+30 s = violation; later post-processing only reported).",
+            "Trusted: the stack inspection that distinguishes 'still searching' from post-processing; wall-clock margins only bound progress, they are never a verdict on their own (outer watchdog => inconclusive).",
+            "runtime monitoring: event log of the timeout protocol (clock, kills, joins, paths) + result soundness oracle",
+            "C19"),
     "C11": ("exploration",
             "The real reduce_to_section / get_line_range / inspect are driven on generated files (every marker style of both ISAs, decoy look-alikes, empty bodies) and judged against the generator's own body lines; metamorphic runs of the real inspect() on marked file / --lines / body-only file / body with inserted comment, label, directive and blank lines compare the analysis captured by wrappers on Frontend.full_analysis and KernelDG.get_critical_path (per-instruction pressure, latency, flags, CP, LCD sets, summary).",
             "Trusted: the file generator's bookkeeping of body lines; variants are aligned by instruction order.",
